@@ -444,6 +444,10 @@ func genCase(t *rapid.T, kind string) Case {
 		}
 		c.Children = append(c.Children, Child{Name: fmt.Sprintf(sh, i), IsDir: rapid.IntRange(0, 2).Draw(t, "isdir") == 0, Size: rapid.IntRange(0, 9).Draw(t, "size"), Special: special(t)})
 	}
+	if c.Dir != "." && rapid.IntRange(0, 3).Draw(t, "samename") == 0 {
+		// a child that has its directory's own name (d/d): comparisons of a base name with a full path show here
+		c.Children = append(c.Children, Child{Name: c.Dir, IsDir: rapid.Bool().Draw(t, "samenamedir"), Size: 1})
+	}
 	if c.Dir == "." && kind == "submem" {
 		// fine: the view's own root
 	}
